@@ -63,9 +63,9 @@ PROPS = {
         "assumptions": [],
     },
     "C07": {
-        "suites": [("gw", "counts"), ("gw", "malformed"), ("gw", "mixed"), ("pure", "rpc"), ("gw", "burst")],
+        "suites": [("gw", "counts"), ("gw", "malformed"), ("gw", "mixed"), ("pure", "rpc"), ("pure", "frames"), ("gw", "burst")],
         "theorems_carry": "the dispatcher is total: every method string is version / answered invalid / handed on with a valid rid; an unsubscribe is always answered with exactly one of three outcomes; the ready-callback counter of a request tree fires its reply exactly once under the registration discipline of collectRefs, for every order in which the subscriptions load (abstract machine Ready)",
-        "correspondence_only": "that every registered continuation runs exactly once: lockstep + response monitor at quiescence. Known findings D2, D10.",
+        "correspondence_only": "that every registered continuation runs exactly once: lockstep + response monitor at quiescence. Known findings D2, D10.; hand-written frames with extra members, odd ids and params (suite frames) and concurrent frames (profile burst) each get exactly one response",
         "assumptions": [],
     },
     "C08": {
